@@ -13,4 +13,10 @@ PreLink == (<<"a">> :> [t |-> "link", to |-> T(FALSE, <<"..", "sent">>)])
 PreDirLink == (<<"a">> :> [t |-> "link", to |-> T(FALSE, <<"..", "sdir">>)])
 PreDir == (<<"a">> :> [t |-> "dir"])
 QPre == { NoPre, PreLink, PreDirLink, PreDir }
+(* file roots: the fixed name "unknown" meets links, files and directories of that name *)
+UEntries == { F(<<"unknown">>), F(<<"a">>) } \cup { L(<<"unknown">>, t) : t \in Targets }
+UDirNames == { <<"unknown">>, <<"a">> }
+PreU(t) == (<<"unknown">> :> [t |-> "link", to |-> t])
+UPre == { NoPre, PreU(T(FALSE, <<"..", "sent">>)), PreU(T(TRUE, <<"w", "new">>)), PreU(T(FALSE, <<"..", "sdir">>)),
+          (<<"unknown">> :> [t |-> "dir"]), (<<"unknown">> :> [t |-> "file", c |-> "OLD"]) }
 =============================================================================
